@@ -284,7 +284,9 @@ static inline void parse_args(int argc, char **argv, args_t *a)
 		else if (!strcmp(o, "--samples")) { g_maxsamples = atoi(v); i++; }
 		else { fprintf(stderr, "harness: unknown option %s\n", o); exit(98); }
 	}
+	int stdin_closed = fcntl(0, F_GETFD) == -1;      /* the runner starts some workers without descriptor 0 */
 	if (a->progress) g_progress_fd = open(a->progress, O_WRONLY | O_CREAT, 0644);
+	if (stdin_closed) stat_add("process.started_with_fd0_closed", 1);
 	setvbuf(stdout, NULL, _IOFBF, 1 << 16);
 }
 /* per-case seed: independent of how cases are split over processes */
